@@ -228,11 +228,31 @@ def one_document(ctx, name, cls, seedstr, classes, every_position):
             continue
         mod = copy.deepcopy(base)
         node_at(mod, path).insert(pos, ins)
+        twice = kind.startswith("unknown") and rng.random() < 0.25
+        if twice:
+            # the same undefined tag two or three times in direct succession
+            for _ in range(rng.choice([1, 1, 2])):
+                node_at(mod, path).insert(pos, copy.deepcopy(ins))
+            ctx.count("same_unknown_tag_in_succession")
         pc = pos_class(pcls, pe, pos)
-        case = {"cls": name, "seedstr": seedstr, "kind": kind, "path": path, "pos": pos, "parent": pe.tag, "level": "etree"}
-        check_etree(ctx, mod, s0, kind, pc, case)
+        case = {"cls": name, "seedstr": seedstr, "kind": kind, "path": path, "pos": pos, "parent": pe.tag, "level": "etree", "twice": twice}
+        check_etree(ctx, mod, s0, kind + ("-repeated" if twice else ""), pc, case)
         n_etree += 1
         ctx.distinct((name, seedstr, kind, tuple(path), pos))
+    # one extreme insertion per document: an undefined aggregate nested far deeper than any interpreter stack (tree route only:
+    # the harness' own renderer is recursive)
+    if slots:
+        path, pe, pcls, pos = rng.choice(slots)
+        deep = ET.Element("ZZDEEP")
+        cur = deep
+        for i in range(1500):
+            cur = ET.SubElement(cur, "ZZD" if i % 2 else "ZZE")  # no vendor prefix: those are stripped before anything looks inside
+        cur.text = "bottom"
+        mod = copy.deepcopy(base)
+        node_at(mod, path).insert(pos, deep)
+        ctx.count("deep_unknown_subtrees")
+        check_etree(ctx, mod, s0, "unknown-agg-1500-deep", pos_class(pcls, pe, pos), {"cls": name, "seedstr": seedstr, "kind": "deep", "level": "etree"})
+        n_etree += 1
     # text-level baselines: the undisturbed document in each form
     base_text = {}
     for form, data in renderings(base, rng):
